@@ -99,6 +99,10 @@ def shards(tier, seed):
     pool = CORE if tier == 'quick' else list(range(len(u)))
     for first in pool:
         out.append(('triples', first, 'core' if tier == 'quick' else 'all'))
+    if tier == 'thorough':
+        for first in CORE:
+            for second in CORE:
+                out.append(('quads', first, second))
     # seed extension: one more part joins the universe (all pairs containing it)
     out.append(('extra', seed % 4, None))
     return out
@@ -277,11 +281,25 @@ def work(spec):
                     for framing in ('cl', 'chunked'):
                         run(res, om, parts, boundary, quoted, M, framing)
         core.add_sample(res, {'boundary': boundary, 'quoted': quoted, 'lists': '0..2 parts over 24', 'example': core.jsonable(u[3])})
+    elif kind == 'quads':
+        k = a * 31 + b
+        for j, l in itertools.product(CORE, repeat=2):
+            parts = [u[a], u[b], u[j], u[l]]
+            (boundary, quoted), M, framing = configs_for(k)
+            k += 1
+            run(res, om, parts, boundary, quoted, 2000 if M == 400 else M, framing)
+        core.add_sample(res, {'first_parts': [core.jsonable(u[a]), core.jsonable(u[b])], 'four_part_lists': len(CORE) ** 2})
     elif kind == 'triples':
         pool = CORE if b == 'core' else list(range(len(u)))
         k = 0
         for j, l in itertools.product(pool, repeat=2):
             parts = [u[a], u[j], u[l]]
+            if b == 'all':
+                # thorough: every boundary spelling, rotating threshold / framing
+                for bi, (boundary, quoted) in enumerate(BOUNDARIES):
+                    run(res, om, parts, boundary, quoted, (400, 102400)[(k + bi) % 2], ('cl', 'chunked')[(k // 2 + bi) % 2])
+                k += 1
+                continue
             (boundary, quoted), M, framing = configs_for(k)
             k += 1
             run(res, om, parts, boundary, quoted, M, framing)
